@@ -262,9 +262,15 @@ func runC14(o *hx.Out, r *hx.Rand, thorough bool) {
 			for _, stale := range []string{"0:OK", "5:backend says not found"} {
 				ret = codeErr{c}
 				relayed = metadata.Pairs("x-grpc-status", stale, "x-backend", "b")
-				got := codeOfErr(ch.Invoke(context.Background(), "/verif.Svc/U", &hx.Msg{}, &hx.Msg{}))
+				var rhdr, rtlr metadata.MD
+				got := codeOfErr(ch.Invoke(context.Background(), "/verif.Svc/U", &hx.Msg{}, &hx.Msg{}, grpc.Header(&rhdr), grpc.Trailer(&rtlr)))
 				relayed = nil
 				d := map[string]interface{}{"code": c, "renderer": rd.name, "handler_response_metadata": "x-grpc-status: " + stale + " (relayed from a backend call)", "client_code": got}
+				if c <= 16 {
+					// the same reply against the model of the header layout (model/UnaryMeta.v), evaluated in Coq
+					o.Case("end_to_end_relay_model_"+rd.name, fmt.Sprintf("Agrees %s (UnaryMeta.agrees %s [] %d %s %d %s %s %d)", hx.Str("relay, "+rd.name),
+						hx.MD(map[string][]string{"x-grpc-status": {stale}, "x-backend": {"b"}}), c, hx.Str("m"), 500, hx.MD(rhdr), hx.MD(rtlr), got), d)
+				}
 				o.Case("end_to_end_relay_"+rd.name, fmt.Sprintf("EndToEnd %d %d %d", c, rd.http, got), d)
 				if got != c {
 					o.Violate("caller does not recover the handler's code when the handler's own response metadata names another status", d, got, c)
